@@ -172,6 +172,7 @@ def copy_value(v, memo):
             return memo[v.oid]
         o = SObj.__new__(SObj)
         o.cls, o.oid, o.frozen, o.label = v.cls, v.oid, v.frozen, v.label
+        o.described = getattr(v, 'described', False)
         memo[v.oid] = o
         o.fields = {k: copy_value(x, memo) for k, x in v.fields.items()}
         return o
